@@ -127,7 +127,68 @@ pub fn number_pool() -> Vec<Num> {
         Num::Hex(0xe, false),
         Num::Bin(5, false),
         Num::Bin(2, true),
+        // non-dyadic values and exponent notations whose mantissa division is inexact
+        Num::Dec(0.1),
+        Num::Dec(0.3),
+        Num::Dec(0.07),
+        Num::Dec(1e-7),
+        Num::Dec(123.456),
+        Num::Dec(1e300),
+        Num::Dec(6.02214076e23),
+        Num::DecExp(0.3, -1, false),
+        Num::DecExp(0.7, -1, false),
+        Num::DecExp(0.11, -1, false),
+        Num::DecExp(7e-9, -9, false),
+        Num::DecExp(7e-10, -10, true),
+        Num::DecExp(2.5e-11, -11, false),
+        Num::DecExp(3e-15, -15, false),
+        Num::DecExp(1.1e-17, -17, true),
+        Num::DecExp(3e-22, -22, false),
+        Num::DecExp(0.5, -1, false),
+        Num::DecExp(1e-7, -7, false),
+        Num::DecExp(1.5e10, 10, true),
+        Num::DecExp(6.02e23, 23, false),
+        Num::DecExp(1e25, 25, false),
+        Num::DecExp(0.3, -3, false),
     ]
+}
+
+/// Decimal literals in exponent notation over a grid of scales: `k * 10^e` (correctly rounded)
+/// for small `k` and `e` in -30..=30, written with that exponent or a neighbouring one, in
+/// both letter cases; then random doubles with random exponents.
+pub fn exponent_literals(rng: &mut Rng, random: usize) -> Vec<Num> {
+    let mut out = Vec::new();
+    for k in [1u32, 3, 5, 7, 11, 15, 25, 99, 123] {
+        for e in -30i64..=30 {
+            let v: f64 = format!("{}e{}", k, e).parse().unwrap();
+            out.push(Num::DecExp(v, e, (k as i64 + e) % 2 == 0));
+            if e % 5 == 0 {
+                out.push(Num::DecExp(v, e + 1, false));
+                out.push(Num::DecExp(v, e - 2, true));
+                out.push(Num::Dec(v));
+            }
+        }
+    }
+    for _ in 0..random {
+        out.push(random_exponent_literal(rng));
+    }
+    out
+}
+
+pub fn random_exponent_literal(rng: &mut Rng) -> Num {
+    if rng.chance(1, 2) {
+        // a short decimal `k * 10^e`
+        let k = 1 + rng.below(999);
+        let e = rng.range(-30, 30);
+        let v: f64 = format!("{}e{}", k, e).parse().unwrap();
+        let shown = e + rng.range(-3, 3);
+        return Num::DecExp(v, shown, rng.chance(1, 2));
+    }
+    let mantissa = rng.next_u64() & ((1u64 << 52) - 1);
+    let exponent = 1023 - 90 + rng.below(180) as u64;
+    let v = f64::from_bits((exponent << 52) | if rng.chance(1, 3) { mantissa & 0x000F_FFF0_0000_0000 } else { mantissa });
+    let e = rng.range(-30, 30);
+    if rng.chance(1, 4) { Num::Dec(v) } else { Num::DecExp(v, e, rng.chance(1, 2)) }
 }
 
 pub fn negative_pool() -> Vec<Num> {
@@ -152,6 +213,23 @@ fn wrap_contexts(e: Ex) -> Vec<Blk> {
         stmts(vec![St::Local(vec!["v".into()], vec![e.clone()])]),
         stmts(vec![St::CallSt(call(id("f"), vec![e.clone(), e]))]),
     ]
+}
+
+/// number literals: every exponent-notation literal alone, next to `..`, a keyword and an
+/// identifier (the literal's VALUE is compared as a double by both re-readers)
+pub fn number_family(rng: &mut Rng, thorough: bool) -> Vec<(&'static str, Blk)> {
+    let mut out = Vec::new();
+    let a = id("a");
+    for (i, n) in exponent_literals(rng, if thorough { 3000 } else { 400 }).into_iter().enumerate() {
+        let e = Ex::Num(n);
+        out.push(("number-literal", match i % 4 {
+            0 => ret(vec![e]),
+            1 => ret(vec![bin(CONCAT, e.clone(), a.clone()), bin(CONCAT, a.clone(), e)]),
+            2 => stmts(vec![St::Local(vec!["ratio".into()], vec![e.clone()]), St::If(vec![(bin(4, a.clone(), e), Blk::default())], None)]),
+            _ => ret(vec![bin(10, id("ratio"), e.clone()), un(1, e)]),
+        }));
+    }
+    out
 }
 
 /// every type node kind, in every position a type can take
@@ -536,6 +614,8 @@ impl Gen {
     fn number(&mut self) -> Ex {
         if self.negatives && self.rng.chance(1, 8) {
             Ex::Num(self.rng.pick(&negative_pool()).clone())
+        } else if self.rng.chance(1, 6) {
+            Ex::Num(random_exponent_literal(&mut self.rng))
         } else {
             let i = self.rng.below(self.numbers.len());
             Ex::Num(self.numbers[i].clone())
